@@ -130,7 +130,8 @@ func (engC02) Gen(r *Rng, s *Script, idx int, tier string) {
 	}
 }
 
-func (engC02) Exec(s *Script, keepLog bool) *Result {
+func (engC02) Exec(s *Script, keepLog bool) (guarded *Result) {
+	defer guardExec("C02", &guarded)
 	w := NewWorld(s.Cfg("kind", 0), "utf8-light", nil, NewEventLog(keepLog))
 	res := &Result{}
 	if v := w.CheckC02("new"); v != nil {
@@ -242,7 +243,8 @@ func (engC09) Gen(r *Rng, s *Script, idx int, tier string) {
 	s.Steps = append(s.Steps, renderStepsAll()...)
 }
 
-func (engC09) Exec(s *Script, keepLog bool) *Result {
+func (engC09) Exec(s *Script, keepLog bool) (guarded *Result) {
+	defer guardExec("C09", &guarded)
 	w := NewWorld(s.Cfg("kind", 0), "utf8-light", nil, NewEventLog(keepLog))
 	res := &Result{}
 	runSteps(w, s.Steps, res, func(i int, st *Step) *Violation {
